@@ -187,9 +187,12 @@ def rule_fit_to_data(prog, rep):
     rep.rule("C16.count", "fit_to_data: at most max_epochs iterations; every iteration appends exactly one value to "
                           "losses['train'] and one to losses['val'] before the stopping test; "
                           "fit_to_variational_target: one iteration per split key (steps), no break, one losses.append "
-                          "per iteration", minimum=5)
+                          "per iteration - decided by evaluating the loops on every strict ordering of scripted losses up "
+                          "to a bound (fitgrid); the structural reading is the fallback", minimum=5)
     rep.rule("C16.stop", "the only early exit is taken iff the latest validation loss is NOT the running minimum and "
-                         "count_fruitless(validation losses) > max_patience", minimum=2)
+                         "count_fruitless(validation losses) > max_patience - i.e. on every scripted history the run stops at "
+                         "the first epoch at which more than max_patience epochs have passed since the best, never earlier",
+             minimum=2)
     rep.rule("C16.version", "the parameters stored as best are exactly the parameters the compared loss was evaluated "
                             "at, and the comparison is latest == min(whole record) (or a running minimum updated only "
                             "when improved)", minimum=4)
